@@ -334,6 +334,27 @@ func runVecHistory(r *rand.Rand, p vecParams, o vecHistOpts, t *Trace) *Case {
 						docids = append(docids, uint32(800+r.Intn(4)))
 					}
 				}
+				if len(resident) > 0 && r.Intn(4) == 0 {
+					// shaped restriction lists: repeated ids, a repeated id "filling" a hole of an otherwise
+					// contiguous run, descending order, one long contiguous block
+					b := resident[r.Intn(len(resident))].id
+					switch r.Intn(5) {
+					case 0:
+						docids = []uint32{b, b, b + 2}
+					case 1:
+						docids = []uint32{b + 2, b, b + 2, b}
+					case 2:
+						docids = []uint32{b + 3, b + 2, b + 1, b}
+					case 3:
+						docids = []uint32{b, b + 1, b + 1, b + 3, b + 4}
+					default:
+						docids = nil
+						for j := uint32(0); j < 6; j++ {
+							docids = append(docids, b+j)
+						}
+					}
+					t.Stat("vec.search_with_shaped_docids")
+				}
 				t.Stat("vec.search_with_docids")
 			}
 			n := len(resident)
